@@ -191,7 +191,7 @@ func (x *Exec) funcEnv(fi *FuncInfo, mode string, cur, old *State, args []Value,
 				return args[i], true
 			}
 		}
-		if mode != "inv" {
+		if mode != "inv" || isOld {
 			for _, fv := range fn.FreeVars {
 				if fv.Name() == name {
 					if pc, ok := cur.regs[fv].(PCell); ok {
@@ -282,19 +282,47 @@ func (w *World) VerifyFunc(fs *FuncSpec) {
 			}
 		}
 	}
+	var selfCells []*ssa.Alloc
+	defer func() { _ = selfCells }()
 	for _, fv := range fn.FreeVars {
 		// captured variables: pointer to a cell owned by the enclosing function
 		et := fv.Type().(*types.Pointer).Elem()
 		ty := tyFromGo(et)
 		cell := &ssa.Alloc{Comment: fv.Name()}
+		synthCellTy[cell] = et
 		v, facts := x.paramValue(ty, fv.Name(), st)
 		for _, f := range facts {
 			st.assume(f)
+		}
+		if _, isFunc := et.Underlying().(*types.Signature); isFunc {
+			// a captured function variable: if the enclosing function stores exactly one value into
+			// it and that value is THIS closure (var f func(..); f = func(..){ .. f(..) .. }), calls
+			// through it are recursive calls, handled through this closure's own contract
+			if selfRef(fn, fv) {
+				var binds []Value
+				for _, fv2 := range fn.FreeVars {
+					if fv2 == fv {
+						binds = append(binds, PCell{cell})
+					} else {
+						binds = append(binds, nil) // patched below, once all cells exist
+					}
+				}
+				v = VClosure{Fn: fn, Binds: binds}
+				selfCells = append(selfCells, cell)
+			}
 		}
 		st.cells[cell] = v
 		st.regs[fv] = PCell{cell}
 		fi.Cells[fv.Name()] = []*ssa.Alloc{cell}
 		x.addModel(fv.Name(), v)
+	}
+	// recursive self-references: the closure value's bindings are this activation's own cells
+	for _, sc := range selfCells {
+		if cl, ok := st.cells[sc].(VClosure); ok {
+			for j, fv2 := range fn.FreeVars {
+				cl.Binds[j] = st.regs[fv2]
+			}
+		}
 	}
 	initPhase := false
 	for _, c := range fs.Clauses {
@@ -440,6 +468,72 @@ func (w *World) VerifyFunc(fs *FuncSpec) {
 	}
 	w.curFunc = fi.Key
 	x.enterBlock(st, fn.Blocks[0], nil, fr)
+}
+
+// synthCellTy: element types of the synthetic cells that stand for captured variables
+var synthCellTy = map[*ssa.Alloc]types.Type{}
+
+func cellElemType(a *ssa.Alloc) types.Type {
+	if t, ok := synthCellTy[a]; ok {
+		return t
+	}
+	return a.Type().(*types.Pointer).Elem()
+}
+
+// selfRef: free variable fv of closure fn is a function variable of the enclosing function whose
+// only store is the MakeClosure of fn itself.
+func selfRef(fn *ssa.Function, fv *ssa.FreeVar) bool {
+	parent := fn.Parent()
+	if parent == nil {
+		return false
+	}
+	idx := -1
+	for j, f := range fn.FreeVars {
+		if f == fv {
+			idx = j
+		}
+	}
+	var cell ssa.Value
+	for _, b := range parent.Blocks {
+		for _, in := range b.Instrs {
+			if mc, ok := in.(*ssa.MakeClosure); ok && mc.Fn == fn && idx < len(mc.Bindings) {
+				cell = mc.Bindings[idx]
+			}
+		}
+	}
+	a, ok := cell.(*ssa.Alloc)
+	if !ok || a.Referrers() == nil {
+		return false
+	}
+	stores := 0
+	self := false
+	for _, r := range *a.Referrers() {
+		if s, ok := r.(*ssa.Store); ok && s.Addr == a {
+			stores++
+			if mc, ok := s.Val.(*ssa.MakeClosure); ok && mc.Fn == fn {
+				self = true
+			}
+		}
+	}
+	// other closures capturing the cell could store to it as well: require that none does
+	for _, af := range parent.AnonFuncs {
+		for j, f := range af.FreeVars {
+			_ = j
+			if f.Name() == fv.Name() && af != fn {
+				return false
+			}
+		}
+		if af == fn {
+			for _, b := range af.Blocks {
+				for _, in := range b.Instrs {
+					if s, ok := in.(*ssa.Store); ok && s.Addr == ssa.Value(fv) {
+						return false
+					}
+				}
+			}
+		}
+	}
+	return stores == 1 && self
 }
 
 func (x *Exec) addModel(name string, v Value) {
@@ -609,6 +703,12 @@ func (x *Exec) assignItem(fi *FuncInfo, ev *Env, it string) assignItem {
 	if g, ok := pkg.Members[it].(*ssa.Global); ok {
 		return assignItem{kind: "global", g: g, text: it}
 	}
+	for _, fv := range fi.Fn.FreeVars {
+		if fv.Name() == it {
+			// a captured variable of the enclosing function (the cell itself; its memory is "it[*]")
+			return assignItem{kind: "cell", text: it}
+		}
+	}
 	vfail("assigns: cannot resolve %q", it)
 	return assignItem{}
 }
@@ -655,6 +755,8 @@ func (x *Exec) applyHints(st *State, cls []*Clause, ev *Env, fi *FuncInfo) {
 			}
 		case "nounfold":
 			h.NoUnfold = true
+		case "regionctx":
+			h.RegionCtx = true
 		case "timeout":
 			fmt.Sscanf(c.Text, "%d", &h.Timeout)
 		case "fuel":
@@ -900,7 +1002,7 @@ func (x *Exec) havocLoop(st *State, fr *frame, lp *Loop) {
 		if _, live := st.cells[a]; !live {
 			continue
 		}
-		ty := tyFromGo(a.Type().(*types.Pointer).Elem())
+		ty := tyFromGo(cellElemType(a))
 		name := a.Comment
 		if name == "" {
 			name = "tmp"
